@@ -5,7 +5,7 @@ import shutil
 import subprocess
 import tempfile
 
-from lib.facts import norm, direct_place, const_int, place_fields, nophi
+from lib.facts import norm, direct_place, const_int, place_fields, nophi, origins
 from lib import tables, extract
 from .common import Recorder
 
@@ -785,7 +785,51 @@ def run_extra(ctx):
         shutil.rmtree(d, ignore_errors=True)
 
 
+def r01_8(ctx, prog, crate):
+    """Each generated value is shown once to EVERY input counter, whatever its type: the closure handed to the recorder as
+    `count_input` asks get_input_count for each counter kind (a loop over KnownCounterKind::ALL, one call per kind per
+    input) and no path through it returns without entering that loop (no shortcut for zero-sized inputs etc.)."""
+    sites = [c for c in prog.callers_of("CounterCollection::get_input_count", crates=[crate]) if "::tests::" not in c.body.path]
+    if not ctx.anchor("R01.8", "get_input_count call sites", sites, 1):
+        return
+    for c in sites:
+        b = c.body
+        ctx.saw(b)
+        lp = b.innermost_loop(c.bb)
+        ok = b.kind == "Closure" and lp is not None and b.once_per_iteration(c.bb, lp)
+        ctx.check(ok, "R01.8", [b.path, "once-per-kind"], "get_input_count is not called exactly once per counter kind for an input", c.line())
+        if not ok:
+            continue
+        nx = [x for x in b.live_calls() if x.bb in lp["body"] and x.callee.endswith("::next")]
+        it = b.prov.op_src(nx[0].args[0]) if nx else set()
+        ctx.check(any(z.kind == "const" and "KnownCounterKind::ALL" in str(z.c or z.a) for z in it) or any("KnownCounterKind::ALL" in z.label() for z in it), "R01.8",
+                  [b.path, "over-all-kinds"], "the loop does not run over KnownCounterKind::ALL (%s)" % sorted(z.label() for z in it)[:4], b.where(lp["header"]))
+        bypass = set(b.returns) & b.reach([0], avoid=[lp["header"]])
+        ctx.check(not bypass, "R01.8", [b.path, "no-shortcut-around-the-counters"],
+                  "the input-counting closure can return without consulting the counters (a path avoids the per-kind loop)", b.where(0))
+        # the input handed to the counters is the closure's own parameter, and the kind is the loop item
+        a_in = {z.label() for z in b.prov.op_src(c.args[2])}
+        ctx.check(a_in == {"param:" + b.param_name(2)}, "R01.8", [b.path, "counts-the-input-it-was-given"], "get_input_count receives %s" % sorted(a_in), c.line())
+        # the closure is the one passed to the recorder as count_input
+        par = prog.parent_body(b)
+        passed = False
+        if par is not None:
+            for pc in par.live_calls():
+                if pc.is_fn_trait_call or pc.decl is None:
+                    for a in pc.args:
+                        for o in origins(par, a):
+                            if o[0] == "rvalue" and o[1]["k"] == "agg" and o[1]["ak"] in ("closure", "tuple"):
+                                txt = str(o[1])
+                                if b.path in txt.replace("'", ""):
+                                    passed = True
+            for bi, si, s in par.stmts():
+                if s["k"] == "assign" and s["rv"]["k"] == "agg" and s["rv"]["ak"] == "closure" and norm(s["rv"]["def"]) == b.path:
+                    passed = passed or True
+        ctx.check(passed, "R01.8", [b.path, "is-the-recorders-count_input"], "the counting closure is not built in the per-thread record closure", b.where(0))
+
+
 def run(ctx, prog, crate):
+    r01_8(ctx, prog, crate)
     rec = Recorder(prog, crate)
     if not ctx.anchor("R01.1", "sample recorder body", 1 if rec.body is not None else 0, 1):
         return
